@@ -566,6 +566,48 @@ func registerIntrinsics(m *Machine) {
 		return TupleV{hi, lo}
 	}
 
+	// leading zeros / bit length / popcount as short bit-test chains (the table-driven library code turns
+	// into 256-entry ite chains that stall the solver)
+	lz := func(x *Term) *Term {
+		w := x.S.W
+		r := tt.BVConst(64, uint64(w))
+		for i := 0; i < w; i++ { // lowest set bit considered first, the highest set bit wins last
+			bit := tt.Eq(tt.Extract(i, i, x), tt.BVConst(1, 1))
+			r = tt.Ite(bit, tt.BVConst(64, uint64(w-1-i)), r)
+		}
+		return r
+	}
+	for _, w := range []int{8, 16, 32, 64} {
+		w := w
+		I[fmt.Sprintf("math/bits.LeadingZeros%d", w)] = func(m *Machine, fr *frame, a []Value, c *ssa.CallCommon) Value {
+			return lz(a[0].(*Term))
+		}
+		I[fmt.Sprintf("math/bits.Len%d", w)] = func(m *Machine, fr *frame, a []Value, c *ssa.CallCommon) Value {
+			return tt.BvBin(OBvSub, tt.BVConst(64, uint64(w)), lz(a[0].(*Term)))
+		}
+		I[fmt.Sprintf("math/bits.OnesCount%d", w)] = func(m *Machine, fr *frame, a []Value, c *ssa.CallCommon) Value {
+			x := a[0].(*Term)
+			r := tt.BVConst(64, 0)
+			for i := 0; i < w; i++ {
+				r = tt.BvBin(OBvAdd, r, tt.Zext(64, tt.Extract(i, i, x)))
+			}
+			return r
+		}
+		I[fmt.Sprintf("math/bits.TrailingZeros%d", w)] = func(m *Machine, fr *frame, a []Value, c *ssa.CallCommon) Value {
+			x := a[0].(*Term)
+			r := tt.BVConst(64, uint64(w))
+			for i := w - 1; i >= 0; i-- {
+				bit := tt.Eq(tt.Extract(i, i, x), tt.BVConst(1, 1))
+				r = tt.Ite(bit, tt.BVConst(64, uint64(i)), r)
+			}
+			return r
+		}
+	}
+	I["math/bits.LeadingZeros"] = I["math/bits.LeadingZeros64"]
+	I["math/bits.Len"] = I["math/bits.Len64"]
+	I["math/bits.OnesCount"] = I["math/bits.OnesCount64"]
+	I["math/bits.TrailingZeros"] = I["math/bits.TrailingZeros64"]
+
 	// ---- sync / atomic / log: no-ops in sequential harnesses ----
 	// handled by pkgIntrinsic
 
